@@ -69,8 +69,10 @@ structure St where
   saved : Option DB
   objs : Nat → Option Obj
   txn : Bool
+  det : Nat → Option Obj      -- detached (expunged) instances the application still holds
 
-def St.init : St := { rows := fun _ => none, saved := none, objs := fun _ => none, txn := false }
+def St.init : St :=
+  { rows := fun _ => none, saved := none, objs := fun _ => none, txn := false, det := fun _ => none }
 
 inductive Op
   | read (k : Nat) (a : Attr)
@@ -85,6 +87,8 @@ inductive Op
   | extSet (k : Nat) (a : Attr) (v : Int)
   | extDel (k : Nat)
   | extIns (k : Nat) (v : Int)                          -- all attributes := v
+  | detach (k : Nat)                                    -- session.expunge(obj) of a clean instance
+  | attach (k : Nat) (viaMerge : Bool)                  -- session.add(obj) / session.merge(obj, load=False)
 deriving Repr
 
 inductive Out
@@ -181,7 +185,7 @@ def expireAllObjs (objs : Nat → Option Obj) : Nat → Option Obj :=
 
 /-- failed flush or Session.rollback() inside a transaction -/
 def rolledBack (st : St) : St :=
-  { rows := st.saved.getD st.rows, saved := none, objs := expireAllObjs st.objs, txn := false }
+  { rows := st.saved.getD st.rows, saved := none, objs := expireAllObjs st.objs, txn := false, det := st.det }
 
 /-- `Session.flush()`: `none` = StaleDataError, or ObjectDeletedError while loading an
     expired primary key (the session is rolled back either way) -/
@@ -197,7 +201,8 @@ def doFlush (c : Cfg) (st : St) : Option St :=
                                  | some s => some s
                                  | none => some st.rows) else st.saved,
            objs := fun k => if k < c.npk then (st.objs k).map (fun o => flushObj o (st.rows k)) else st.objs k,
-           txn := st.txn || work }
+           txn := st.txn || work,
+           det := st.det }
 
 /-- `Session._autoflush()` -/
 def autoflush (c : Cfg) (st : St) : Option St :=
@@ -214,6 +219,10 @@ def setObj (st : St) (k : Nat) (o : Option Obj) : St :=
 def attrsOk (c : Cfg) : Option (List Attr) → Bool
   | none => true
   | some l => !l.isEmpty && l.all (· < c.nattr)
+
+/-- what an instance looks like to the Session it is (re-)attached to: its loaded values, no
+    history (only clean instances are detached; `merge(load=False)` commits all anyway) -/
+def cleanCopy (o : Obj) : Obj := ⟨o.dict, fun _ => false, fun _ => none, o.pk, false⟩
 
 def step (c : Cfg) (st : St) : Op → St × Out
   | .read k a =>
@@ -281,7 +290,7 @@ def step (c : Cfg) (st : St) : Op → St × Out
     | none => (rolledBack st, .stale)
     | some st1 =>
       ({ rows := st1.rows, saved := none,
-         objs := if c.eoc then expireAllObjs st1.objs else st1.objs, txn := false }, .done)
+         objs := if c.eoc then expireAllObjs st1.objs else st1.objs, txn := false, det := st1.det }, .done)
   | .rollback => if st.txn then (rolledBack st, .done) else (st, .done)
   | .extSet k a v =>
     match st.saved, st.rows k with
@@ -294,6 +303,22 @@ def step (c : Cfg) (st : St) : Op → St × Out
   | .extIns k v =>
     match st.saved, st.rows k with
     | none, none => ({ st with rows := fun j => if j = k then some (fun _ => v) else st.rows j }, .done)
+    | _, _ => (st, .skip)
+  | .detach k =>
+    match st.objs k, st.det k with
+    | some o, none =>
+      if o.dirty then (st, .skip)
+      else ({ st with objs := fun j => if j = k then none else st.objs j,
+                      det := fun j => if j = k then some (cleanCopy o) else st.det j }, .done)
+    | _, _ => (st, .skip)
+  | .attach k _ =>
+    -- add(): Session._save_or_update_state / merge(load=False): new instance carrying the
+    -- source's loaded attributes, _commit_all.  Either way the Session now holds a LOADED
+    -- instance in a transaction that has not touched the database (autobegin only).
+    match st.objs k, st.det k with
+    | none, some o =>
+      ({ st with objs := fun j => if j = k then some (cleanCopy o) else st.objs j,
+                 det := fun j => if j = k then none else st.det j, txn := true }, .done)
     | _, _ => (st, .skip)
 
 def run (c : Cfg) (st : St) : List Op → St
@@ -309,7 +334,7 @@ def opOk (c : Cfg) : Op → Bool
   | .expire k attrs | .refresh k attrs => k < c.npk && attrsOk c attrs
   | .query _ (some (a, _)) => a < c.nattr
   | .query _ none => true
-  | .extDel k | .extIns k _ => k < c.npk
+  | .extDel k | .extIns k _ | .detach k | .attach k _ => k < c.npk
   | .expireAll | .flush | .commit | .rollback => true
 
 end SaVerif.Expire
